@@ -140,6 +140,27 @@ pub fn run(ctx: &Ctx) {
             }
         }
     }
+    // ---- many solutions: the same slot written by the solutions at positions i and j of a set of n (every pair for the sizes around typical batch
+    // sizes, a sample for the largest), with distinct slots everywhere else
+    for n in [4usize, 15, 16, 17, 31, 32, 33, 64, 100] {
+        let step = if n > 33 { 7 } else { 1 };
+        for i in (0..n).step_by(step) {
+            for j in (i + 1..n).step_by(step) {
+                for same_contract in [true, false] {
+                    let id = format!("validate/many/{n}/{i}/{j}/{same_contract}");
+                    if !ctx.want(&id) {
+                        continue;
+                    }
+                    let mut sols: Vec<Solution> = (0..n).map(|k| sol(1 + (k % 3) as u8, k as u8, vec![], vec![Mutation { key: vec![k as Word, 5], value: vec![1] }, Mutation { key: vec![k as Word], value: vec![] }])).collect();
+                    sols[i].predicate_to_solve.contract = ca(9);
+                    sols[j].predicate_to_solve.contract = if same_contract { ca(9) } else { ca(8) };
+                    sols[i].state_mutations.push(Mutation { key: vec![77, 78], value: vec![2] });
+                    sols[j].state_mutations.insert(0, Mutation { key: vec![77, 78], value: vec![3] });
+                    check_set_case(ctx, &id, &SolutionSet { solutions: sols }, || format!("{n} solutions, positions {i} and {j} write key [77, 78] of {}", if same_contract { "the same contract" } else { "different contracts" }));
+                }
+            }
+        }
+    }
     // ---- signed contracts: a valid signature is accepted, every other recovery id or a corrupted signature is rejected
     {
         use essential_types::contract::{Contract, SignedContract};
